@@ -663,6 +663,11 @@ def identity(node: ir.Node, op, state: OptimizerState) -> ReturnValue:
             )
         if input.type is None:
             input.type = output.type
+        elif output.type is None:
+            # forward: later passes may keep this value instead of a typed duplicate of it
+            output.type = input.type
+        if output.shape is None:
+            output.shape = input.shape
         state.set_sym_value(output, input)
     return None
 
